@@ -129,6 +129,12 @@ fn seg_strategy() -> impl Strategy<Value = [P; 4]> {
         }),
         // random finite doubles
         3 => [(-1e3f64..1e3, -1e3f64..1e3), (-1e3f64..1e3, -1e3f64..1e3), (-1e3f64..1e3, -1e3f64..1e3), (-1e3f64..1e3, -1e3f64..1e3)],
+        // end points that almost coincide (a few ulps apart): crossings right at the ends of both segments
+        3 => ((-1100.0f64..1100.0, -1100.0f64..1100.0), (-1100.0f64..1100.0, -1e-6f64..1e-6), (-1100.0f64..1100.0, -1100.0f64..1100.0), [-3i64..4, -3i64..4], any::<bool>()).prop_map(|(a, b, d, k, swap)| {
+            let nudge = |v: f64, n: i64| if v == 0.0 { v } else { f64::from_bits((v.to_bits() as i64 + n) as u64) };
+            let c = (nudge(b.0, k[0]), nudge(b.1, k[1]));
+            if swap { [a, b, d, c] } else { [a, b, c, d] }
+        }),
         // segment through a computed point of another (T junction in floating point)
         2 => ((-100.0f64..100.0, -100.0f64..100.0), (-100.0f64..100.0, -100.0f64..100.0), 0.0f64..1.0, (-100.0f64..100.0, -100.0f64..100.0))
             .prop_map(|(a, b, t, d)| [a, b, (a.0 + (b.0 - a.0) * t, a.1 + (b.1 - a.1) * t), d]),
@@ -232,7 +238,11 @@ impl Property for C11 {
                     obs.expect(ok, "line_intersection|improper-point-not-the-endpoint", || format!("got {:?}; {}", p, ctx()));
                 } else {
                     let inb = |u: P, v: P| p.0 >= u.0.min(v.0) && p.0 <= u.0.max(v.0) && p.1 >= u.1.min(v.1) && p.1 <= u.1.max(v.1);
-                    obs.expect(inb(a, b) && inb(cc, d), "line_intersection|proper-point-outside-envelope", || format!("got {:?}; {}", p, ctx()));
+                    // input class for the known-findings matcher: coordinate magnitudes spanning more than 2^64
+                    let mags: Vec<f64> = c.pts.iter().flat_map(|q| [q.0.abs(), q.1.abs()]).filter(|v| *v > 0.0).collect();
+                    let (lo, hi) = (mags.iter().cloned().fold(f64::INFINITY, f64::min), mags.iter().cloned().fold(0.0, f64::max));
+                    let class = if hi / lo > 2f64.powi(64) { "|dynamic-range>2^64" } else { "" };
+                    obs.expect(inb(a, b) && inb(cc, d), &format!("line_intersection|proper-point-outside-envelope{class}"), || format!("got {:?}; {}", p, ctx()));
                     if sin > 2f64.powi(-20) {
                         let t = true_crossing(a, b, cc, d);
                         let maxabs = c.pts.iter().fold(0f64, |m, q| m.max(q.0.abs()).max(q.1.abs()));
